@@ -257,6 +257,50 @@ def random_job(rng, quick):
                 k=rng.choice([5, 20]), seed=rng.randrange(2 ** 31), px=px, py=py)
 
 
+PATTERNS = {3: [[(0, 1), (1, 2)], [(0, 1), (1, 2), (0, 2)]],
+            4: [[(0, 1), (1, 2), (2, 3)], [(0, 1), (0, 2), (0, 3)], [(0, 1), (1, 2), (2, 3), (0, 3)],
+                [(0, 1), (1, 2), (2, 3), (0, 3), (0, 2)], [(0, 1), (1, 2), (2, 3), (0, 3), (0, 2), (1, 3)]]}
+
+
+def equal_groups_job(rng, quick):
+    """several planted components with the SAME number of nodes and DIFFERENT numbers of connections
+    (a path next to a triangle, a star next to a 4-cycle next to a 4-clique): 'one p-value per
+    component ... that component's number of connections' is then the only thing that tells them
+    apart (random effects mostly give one component, or components of different node counts)."""
+    s = rng.choice([3, 3, 4])
+    g = 2 if (s == 4 or rng.random() < 0.6) else 3
+    n = min(9, s * g + rng.choice([0, 0, 1]))        # (Nbs.tla tabulates edge lists up to 9 nodes)
+    paired = rng.random() < 0.4
+    nx = rng.randint(3, 6)
+    ny = nx if paired else rng.randint(3, 6)
+    nodes = list(range(n)); rng.shuffle(nodes)
+    pats = rng.sample(PATTERNS[s], g) if g <= len(PATTERNS[s]) else [rng.choice(PATTERNS[s]) for _ in range(g)]
+    planted = set()
+    for b in range(g):
+        grp = nodes[b * s:(b + 1) * s]
+        for (a, c) in pats[b]:
+            planted.add((min(grp[a], grp[c]), max(grp[a], grp[c])))
+    hi = rng.random() < 0.5
+    tx, ty = [], []
+    for (i, j) in edge_pairs(n):
+        if (i, j) in planted:
+            if paired:
+                top = [rng.choice([3, 3, 2]) for _ in range(nx)]
+                low = [max(0, v - rng.choice([2, 2, 3])) for v in top]
+                vx, vy = (top, low) if hi else (low, top)
+            else:
+                vx = [rng.choice([3, 3, 2] if hi else [0, 0, 1]) for _ in range(nx)]
+                vy = [rng.choice([0, 0, 1] if hi else [3, 3, 2]) for _ in range(ny)]
+        else:                                  # noise: sometimes supra-threshold under a relabelling
+            vx = [rng.randint(0, 3) for _ in range(nx)]
+            vy = [rng.randint(0, 3) for _ in range(ny)]
+        tx.append(vx); ty.append(vy)
+    px, py = reorderings(rng, nx, ny, paired)
+    return dict(fn=FN, src="equal-groups", n=n, x=stacks_from_edge_table(n, tx), y=stacks_from_edge_table(n, ty),
+                tn=rng.choice([13, 15, 17, 21, 25]), td=8, tail=("right" if hi else "left") if rng.random() < 0.5 else "both",
+                paired=int(paired), k=rng.choice([20, 40]), seed=rng.randrange(2 ** 31), px=px, py=py)
+
+
 def mc_nonvacuous(ctx, c):
     """Model-check one configuration and make sure the permutation loop was actually walked
     (an input table without any supra-threshold edge ends after Observe)."""
@@ -278,6 +322,8 @@ def run(ctx):
     nb = len(jobs)
     rng = random.Random(ctx.seed * 104729 + 3)
     jobs += [random_job(rng, ctx.quick) for _ in range(400 if ctx.quick else 8000)]
+    rng2 = random.Random(ctx.seed * 7919 + 19)
+    jobs += [equal_groups_job(rng2, ctx.quick) for _ in range(120 if ctx.quick else 1500)]
     recs = pool.run_jobs(__name__, jobs, limit=60.0)
     if os.environ.get("VERIF_C19_PARALLEL"):
         # side check of bct/nbs_parallel.py (own process pool: run in-line, not in pool workers)
